@@ -72,6 +72,9 @@ def load_registry():
 MEM_LIMIT_GB = int(os.environ.get("VERIF_MEM_GB", "12"))
 
 
+PEAK_RSS = {}   # harness id (suffix of the goto binary name) -> peak resident MB
+
+
 def _watch_mem(pgid, stop):
     """kill any cbmc process of our process group whose resident set exceeds the limit (then Kani reports
     'CBMC failed' for that harness, which the driver maps to inconclusive)"""
@@ -90,6 +93,14 @@ def _watch_mem(pgid, stop):
                     if int(fields[2]) != pgid:
                         continue
                     rss = int(fields[21]) * page
+                    try:
+                        cl = open(f"/proc/{d}/cmdline").read()
+                        mm = re.search(r"(\w+)\.out", cl)
+                        if mm:
+                            key = mm.group(1)
+                            PEAK_RSS[key] = max(PEAK_RSS.get(key, 0), rss >> 20)
+                    except OSError:
+                        pass
                     if rss > MEM_LIMIT_GB * (1 << 30):
                         os.kill(int(d), signal.SIGKILL)
                 except (OSError, ValueError):
@@ -511,7 +522,8 @@ def write_evidence(prop, tier, seed, sel, results, vres, prep_log, kani_runs, vi
             if (tags and prop not in tags) or (not tags and prop != "C04"):
                 other += 1
         total -= other
-        row = {"id": h["id"], "kind": h["kind"], "status": pr["status"], "checks": total, "discharged": ok,
+        peak = max([v for k, v in PEAK_RSS.items() if k.endswith(h["id"])] or [0])
+        row = {"id": h["id"], "kind": h["kind"], "status": pr["status"], "checks": total, "discharged": ok, "peak_rss_mb": peak,
                "unreachable": pr["unreachable"], "cbmc_s": pr["time"], "functions": h["fns"],
                "covers": f"{pr['covers_sat']}/{pr['covers_total']}"}
         if h["kind"].startswith("bnd"):
